@@ -167,6 +167,10 @@ func (r *ongoingTxKeyReader) Reset() error {
 		return err
 	}
 
+	// the reader starts over: its offset applies again, as it does for the
+	// reader of a read-only snapshot
+	r.skipped = 0
+
 	if r.tx.mvccReadSet.readsetSize == r.tx.st.mvccReadSetLimit {
 		return ErrMVCCReadSetLimitExceeded
 	}
